@@ -455,8 +455,11 @@ class Parser:
                     s["offset"] = self.expr()
 
     def locking(self):
+        """FOR UPDATE / FOR SHARE / LOCK IN SHARE MODE: returns "update", "share" or None"""
+        mode = None
         while True:
             if self.at_kw("FOR") and self.peek().kind == "id" and self.peek().up in ("UPDATE", "SHARE"):
+                mode = "update" if self.peek().up == "UPDATE" or mode == "update" else "share"
                 self.i += 2
                 if self.accept_kw("OF"):
                     self.ident()
@@ -469,8 +472,9 @@ class Parser:
                 self.i += 2
                 self.expect_kw("SHARE")
                 self.expect_kw("MODE")
+                mode = mode or "share"
             else:
-                return
+                return mode
 
     def select_core(self):
         if self.accept_op("("):
@@ -526,10 +530,12 @@ class Parser:
         self.order_limit(s)
         if self.accept_kw("INTO"):
             s["into"] = self.into_list()
-        self.locking()
+        lk = self.locking()
         if self.accept_kw("INTO"):
             s["into"] = self.into_list()
-        self.locking()
+        lk = self.locking() or lk
+        if lk:
+            s["lock"] = lk
         return s
 
     def into_list(self):
